@@ -72,7 +72,7 @@ fn cleanup_temporary_directory(temp_dir: Cow<Path>) -> Result<()> {
 
 /// Returns `name` if it non-empty, does not start with a reserved
 /// byte (dot, slash, backslash), and contains no path separator.
-fn validate_file_name(name: &str) -> Result<&str> {
+pub(crate) fn validate_file_name(name: &str) -> Result<&str> {
     match name.as_bytes().first() {
         None => Err(Error::new(
             ErrorKind::InvalidInput,
